@@ -209,6 +209,12 @@ def cases(tier, seed):
     meshes = all_meshes()
   for i, ms in enumerate(meshes):
     out += _per_mesh_cases(ms, i, tier)
+  if tier == 'quick':
+    # axis sizes that are not a power of two (6 devices on x or y): the two-way collective
+    # matmuls index their chunks modulo the axis size; op-level cases only (cheap)
+    for ms in [(1, 6, 1), (1, 1, 6)]:
+      out.append(_simple_case('einsum', ms, 2.0, full=False))
+      out.append(_grid_case(ms, _SMALL, None, None, None, fields=['2d', '3d_nondiv']))
   # rejection cases: odd x or y
   odd = odd_xy_meshes()
   if tier == 'quick':
